@@ -135,20 +135,56 @@ def wild_contract_s(draw, ins, outs, w, assume_on=None, dyadic=True, na=(0, 2), 
 
 
 @st.composite
+def coupled_contract_s(draw, ins, outs, w, assume_on=None, dyadic=True):
+    """Guarantees that couple the outputs with each other (ratio-like rows listed before plain bounds) and terms that
+    mention several interface variables at once: exercises multi-variable eliminations (Kaykobad systems, LP contexts)."""
+    base = draw(structured_contract_s(ins, outs, w, assume_on, dyadic))
+    g = []
+    allv = list(ins) + list(outs)
+    for a in outs:
+        for b in outs:
+            if a != b and draw(st.integers(0, 2)) > 0:
+                co = {a: draw(st.sampled_from([1, 1, 2, -1])), b: -draw(st.sampled_from([1, 2, 3, 0.5]))}
+                g.append([co, float(dot(co, w) + draw(st.sampled_from([0, 0, 1, 2])))])
+    for _ in range(draw(st.integers(0, 2))):
+        k = draw(st.integers(2, min(4, len(allv)))) if len(allv) >= 2 else 1
+        vs = draw(st.lists(st.sampled_from(allv), min_size=k, max_size=k, unique=True))
+        co = {v: draw(coef_s(dyadic)) for v in vs}
+        g.append([co, float(dot(co, w) + draw(st.sampled_from(SLACKS)))])
+    if draw(st.booleans()):
+        base["g"] = g + base["g"]
+    else:
+        base["g"] = base["g"] + g
+    return base
+
+
+@st.composite
 def contract_pair_s(draw, kinds=WIRINGS_W, dyadic=True, feedback_assumptions=False):
     """Two contracts over a wiring, sharing a witness so that everything is jointly satisfiable."""
     wr = draw(wiring_s(kinds))
     names = sorted(set(wr["i1"] + wr["o1"] + wr["i2"] + wr["o2"]))
     w = draw(witness_s(names))
-    content = draw(st.sampled_from(["structured", "structured", "wild", "half"]))
+    content = draw(st.sampled_from(["structured", "structured", "wild", "half", "coupled", "coupled"]))
     ao1, ao2 = None, None
     if wr["kind"] == "feedback" and not feedback_assumptions:
         ao1 = [v for v in wr["i1"] if v not in wr["o2"]]
         ao2 = [v for v in wr["i2"] if v not in wr["o1"]]
-    mk1 = structured_contract_s if content in ("structured", "half") else wild_contract_s
-    mk2 = structured_contract_s if content == "structured" else wild_contract_s
+    mk1 = structured_contract_s if content in ("structured", "half") else coupled_contract_s if content == "coupled" else wild_contract_s
+    mk2 = structured_contract_s if content == "structured" else coupled_contract_s if content == "coupled" else wild_contract_s
     c1 = draw(mk1(wr["i1"], wr["o1"], w, ao1, dyadic))
     c2 = draw(mk2(wr["i2"], wr["o2"], w, ao2, dyadic))
+    if content == "coupled":
+        # the consumer mentions all the variables it shares with the producer in one term
+        for prod, cons in ((c1, c2), (c2, c1)):
+            sh = [v for v in prod["o"] if v in cons["i"]]
+            if len(sh) >= 2 and draw(st.booleans()):
+                co = {v: draw(coef_s(dyadic)) for v in sh}
+                tgt = draw(st.sampled_from(cons["o"]))
+                co[tgt] = draw(st.sampled_from([1, -1, 2]))
+                cons["g"].append([co, float(dot(co, w) + draw(st.sampled_from(SLACKS)))])
+                if draw(st.integers(0, 2)) == 0 and (wr["kind"] != "feedback"):
+                    ca = {v: draw(coef_s(dyadic)) for v in sh}
+                    cons["a"].append([ca, float(dot(ca, w) + draw(st.sampled_from([1, 2, 5])))])
     return {"wiring": wr["kind"], "content": content, "c1": c1, "c2": c2, "witness": w}
 
 
